@@ -415,6 +415,15 @@ impl Responder {
 
 #[cfg(feature = "verif")]
 impl Responder {
+    /// Identifiers of the internal mutexes, so the verification scheduler can name them in its reports.
+    pub fn verif_mutex_ids(&self) -> Vec<(&'static str, usize)> {
+        vec![
+            ("responder.tx_index", self.tx_index.id()),
+            ("responder.carrier", self.carrier.id()),
+            ("responder.reorged_trackers", self.reorged_trackers.id()),
+        ]
+    }
+
     /// Snapshot of the pruned tx index for the verification harness:
     /// (txid, block hash) entries, blocks oldest-first with their txids, and the height reported per block.
     #[allow(clippy::type_complexity)]
